@@ -518,6 +518,55 @@ async fn chain_case(ctx: &mut Ctx, ident: &str, nclients: usize, request: &[usiz
             ctx.count(&format!("chain_identity/{ident}"));
         }
     }
+    // ---- a client restarts: a new connection under the identity it announced, the old one
+    // still open. The reply to a request read from the new connection retraces THAT route.
+    if ident == "1" || ident == "255" {
+        let id = clients[0].id.clone();
+        let newc = match Peer::attach(&router, "REQ", Some(&id)).await {
+            Ok(p) => p,
+            Err(e) => {
+                ctx.violation_with("C07/chain/reconnecting-client-rejected", e, case.clone());
+                return;
+            }
+        };
+        let req = mk(0xC9, request);
+        let rpl = mk(0xD9, reply);
+        let mut wire: Frames = vec![vec![]];
+        wire.extend(req.clone());
+        newc.send(&wire);
+        let m = match recv_now(&mut router).await {
+            Some(Ok(m)) => m,
+            other => {
+                ctx.violation_with("C07/chain/request-lost-at-router", format!("request on a client's new connection: ROUTER.recv gave {other:?}"), case.clone());
+                return;
+            }
+        };
+        back.send(&m);
+        if !matches!(recv_now(&mut rep).await, Some(Ok(got)) if got == req) {
+            ctx.violation_with("C07/chain/rep-recv-not-the-request-payload", "request of a reconnected client".into(), case.clone());
+            return;
+        }
+        let _ = sim::complete(rep.send(&rpl)).await;
+        let fwd = back.out_msgs().ok().and_then(|o| o.last().cloned()).unwrap_or_default();
+        let old_before = clients[0].conn.tap_len();
+        let sent = sim::complete(router.send(&fwd)).await;
+        let mut want: Frames = vec![vec![]];
+        want.extend(rpl.clone());
+        let on_new = newc.out_msgs().ok() == Some(vec![want]);
+        if !matches!(sent, Ok(Ok(()))) || !on_new || clients[0].conn.tap_len() != old_before {
+            ctx.violation_with(
+                "C07/chain/reply-did-not-retrace-the-route",
+                format!(
+                    "a client reconnected under its {}-byte identity (old connection still open) and sent a request on the new connection: ROUTER.send of the reply gave {sent:?}; on the new connection: {on_new}; bytes written to the old connection: {}",
+                    id.len(),
+                    clients[0].conn.tap_len() - old_before
+                ),
+                case.clone(),
+            );
+            return;
+        }
+        ctx.count("chain_replies_to_a_reconnected_client");
+    }
 }
 
 impl Prop for C07 {
@@ -696,6 +745,7 @@ impl Prop for C07 {
             ("multi_hop_prefix", 100),
             ("rep_two_request_sequences", 48),
             ("chain_round_trips", 1000),
+            ("chain_replies_to_a_reconnected_client", 200),
             ("chain_identity/empty", 200),
             ("chain_identity/none", 200),
             ("req_peer_died_with_request_outstanding", 4),
